@@ -81,8 +81,8 @@ var scenarios = []*scenario{
 		warm: []string{"reg:c1+reg:c2+reg:c3", "fund", "e4", "vote:v1:a", "e", "approp", "prop:A:c1", "rev2:A:a", "e",
 			"prop:B:c2", "e"},
 		alphabet: []string{"e", "wd:A", "realwd", "trk:A:progress", "trk:A:rejected", "trk:A:rejected:2", "trk:A:finalized",
-			"trk:A:terminated", "trk:A:changeowner", "rev2:B:a", "imp:vi:c1:big"},
-		extra: []string{"e2", "trk:A:common", "trk:A:progress:2", "rev:c1:B:r", "rej:vr:B:big", "close:E:A:c1"},
+			"trk:A:terminated", "trk:A:changeowner", "rev2:B:a"},
+		extra: []string{"e2", "imp:vi:c1:big", "trk:A:common", "trk:A:progress:2", "rev:c1:B:r", "rej:vr:B:big", "close:E:A:c1"},
 	},
 	{
 		// A voter-agreed; three special proposals already approved by the council and in public
